@@ -24,6 +24,52 @@ META = {
 }
 
 
+
+_BLANKS = (" ", "\t", "\n")
+
+
+def _skips_blanks(prog, name, depth=0):
+    """does the function (or a helper it calls) step over blanks: isspace() in a loop, or strspn() with a set that holds blank, tab and newline"""
+    try:
+        h = prog.fn(name)
+    except Exception:
+        return False
+    for c in h.calls():
+        cal = c.j.get("callee")
+        if cal == "isspace" and any(a.k in ("WhileStmt", "ForStmt", "DoStmt") for a in c.ancestors()):
+            return True
+        if cal == "strspn" and len(c.call_args()) == 2:
+            txt = c.call_args()[1].string_value()
+            if txt is not None and all(b in txt for b in _BLANKS):
+                return True
+        if cal and depth < 2 and cal != name and cal in getattr(prog, "functions", {}) and _skips_blanks(prog, cal, depth + 1):
+            return True
+    return False
+
+
+def _text_source(prog, g, d):
+    import re as _re
+    if d.rhs is None:
+        return ("raw", "a parameter")
+    r = d.rhs.strip()
+    name = None
+    if r.k == "CallExpr":
+        name = r.j.get("callee")
+        if name == "trim":
+            return ("skipper", "trim")
+    elif r.k == "DeclRefExpr":
+        m = _re.match(r"^(?:.*\.)?(\w+)\$\d+\.\$ret$", r.j.get("name", ""))
+        if m:
+            name = m.group(1)
+    if name is None:
+        return ("raw", render(r))
+    from sa.mod import LIBC
+    if name in LIBC:
+        return ("raw", name)
+    if _skips_blanks(prog, name):
+        return ("skipper", name)
+    return ("unknown", name)
+
 def p8_comment_lines(prog, ctx):
     """P8: which lines are "the comment lines directly preceding the entry" is decided by the same test for every comment
     character of the set (= C05.K1 / K3); and the text kept for comments and values is never mixed (= C05.K5)."""
@@ -149,7 +195,9 @@ def run(prog, ctx):
         if lit is not None and lit.kind == "eq" and lit.pol and ord('"') in (lit.lhs.const_value(), lit.rhs.const_value()):
             for side in (lit.lhs, lit.rhs):
                 ss = side.strip()
-                if ss.k == "ArraySubscriptExpr" and ss.children[0].strip().k == "DeclRefExpr":
+                if ss.k == "ArraySubscriptExpr" and ss.children[0].strip().k == "DeclRefExpr" and ss.children[1].const_value() == 0:
+                    qt.append((ss.children[0].strip(), gcf.blocks[b].cond))
+                elif ss.k == "UnaryOperator" and ss.j.get("op") == "*" and ss.children[0].strip().k == "DeclRefExpr":
                     qt.append((ss.children[0].strip(), gcf.blocks[b].cond))
     if not qt:
         ctx.fail("P1", "extended value: a value starting with a quote is one item", g.where, "no test for an opening quote", key="quote-test-missing")
@@ -162,8 +210,19 @@ def run(prog, ctx):
             tds = [d for d in ds if d.rhs is not None and d.rhs.strip().k == "CallExpr" and d.rhs.strip().j.get("callee") == "trim" and d.node is not None]
             later = [d for d in ds if d not in tds and d.node is not None and any(gcf.block_of(d.node) in gcf.reachable(gcf.block_of(t.node)) and d.node is not t.node for t in tds)]
             trimmed = bool(tds) and not later and any(gcf.must_pass(t.node, cond) for t in tds)
+        via = None
+        if not trimmed and ds:
+            # a different helper delivers the text: one that is seen to skip blanks counts, any other is not understood
+            kinds = [_text_source(prog, g, d) for d in ds]
+            if all(k[0] == "skipper" for k in kinds):
+                trimmed, via = True, kinds[0][1]
+            elif any(k[0] == "unknown" for k in kinds) and not any(k[0] == "raw" for k in kinds):
+                ctx.inconclusive("P1", "extended value: the quote test looks at the trimmed value", cond.where,
+                                 "the text tested comes from %s, which is not seen to skip leading blanks" % sorted(set(k[1] for k in kinds if k[0] == "unknown")))
+                continue
         if trimmed:
-            ctx.ok("P1", "extended value: the quote test looks at the trimmed value", cond.where, "%s = trim(...) reaches the test" % var.j["name"])
+            ctx.ok("P1", "extended value: the quote test looks at the trimmed value", cond.where,
+                   "%s = %s(...) reaches the test" % (var.j["name"], via or "trim"))
         else:
             ctx.fail("P1", "extended value: the quote test looks at the trimmed value", cond.where,
                      "`%s[0] == '\"'` tests text that was not blank-trimmed: a quoted value that starts on a continuation line (leading newline/blanks) "
